@@ -173,3 +173,63 @@ func zzCfgServerNameForVerification() {
 		zzsymCover("long_name")
 	}
 }
+
+func zzSNConfigured2(i int) string {
+	if i == 6 {
+		return "192.0.2.2" // a second IPv4 literal: same (empty) SNI value as "192.0.2.1", different verification name
+	}
+	if i == 7 {
+		return "other.example"
+	}
+
+	return zzSNConfigured(i)
+}
+
+type zzSNAddr struct{}
+
+func (zzSNAddr) Network() string { return "udp" }
+func (zzSNAddr) String() string  { return "198.51.100.7:4444" }
+
+// The key under which a CLIENT stores and looks up its resumable session (Conn.sessionKey, the real method, on a
+// Conn whose handshake configuration came through the real option path as above) for two connections to the SAME
+// remote address configured with names i and j of the menu {DNS name, two IPv4 literals, IPv6 literal, empty,
+// 255-octet name, a second DNS name}: whenever the names the server chain is VERIFIED for differ, the keys differ
+// [cfg_client_session_key_separates_verification_names]. Otherwise a session authenticated for name i is offered -
+// and, if the server still holds it, resumed WITHOUT any certificate check - by a connection whose policy
+// requires a certificate valid for name j (abbreviated handshakes skip Certificate / ServerKeyExchange, so the
+// session key is the only place where the name enters). Equal names give equal keys (resumption works at all).
+//
+//symgo:entry covers=same_name_same_key,different_names,ip_literal_pair
+func zzCfgClientSessionKeySeparatesNames() {
+	key := func(name string) []byte {
+		cfg := &dtlsConfig{LoggerFactory: zzSNLogFactory{}}
+		zzsymAssert(WithServerName(name).applyClient(cfg) == nil, "cfg_server_name_option_ok")
+		values, err := newConnConfigValues(cfg)
+		zzsymAssert(err == nil, "cfg_conn_values_ok")
+		hc := newHandshakeConfig(cfg, values, nil)
+		c := &Conn{
+			state:           &dtlsstate.State12{Common: &dtlsstate.Common{IsClient: true, LocalVersion: protocol.Version1_2}},
+			handshakeConfig: hc,
+			rAddr:           zzSNAddr{},
+		}
+
+		return c.sessionKey()
+	}
+	i, j := zzsymChoice("name_i", 8), zzsymChoice("name_j", 8)
+	if i == 5 || j == 5 {
+		return
+	}
+	ni, nj := zzSNConfigured2(i), zzSNConfigured2(j)
+	ki, kj := key(ni), key(nj)
+	if ni == nj {
+		zzsymAssert(string(ki) == string(kj), "cfg_client_session_key_same_name_same_key")
+		zzsymCover("same_name_same_key")
+
+		return
+	}
+	zzsymAssert(string(ki) != string(kj), "cfg_client_session_key_separates_verification_names")
+	zzsymCover("different_names")
+	if (i == 1 && j == 6) || (i == 6 && j == 1) {
+		zzsymCover("ip_literal_pair")
+	}
+}
